@@ -89,6 +89,14 @@ def balDelta (moves : List Move) : String :=
     | .burn s dn a => addDelta m (balKey s dn) (-(a : Int))
     | .mint d dn a => addDelta m (balKey d dn) a) [])
 
+/-- The coin movements in order, as the bank module's events report them. -/
+def movesStr (moves : List Move) : String :=
+  let parts := moves.filterMap fun mv => match mv with
+    | .xfer s d dn a => if a == 0 then none else some ("x:" ++ hexRaw s ++ ":" ++ hexRaw d ++ ":" ++ hxS dn ++ ":" ++ natToDec a)
+    | .burn s dn a => if a == 0 then none else some ("b:" ++ hexRaw s ++ ":" ++ hxS dn ++ ":" ++ natToDec a)
+    | .mint d dn a => if a == 0 then none else some ("m:" ++ hexRaw d ++ ":" ++ hxS dn ++ ":" ++ natToDec a)
+  if parts.isEmpty then "-" else joinWith "," parts
+
 def supDelta (moves : List Move) : String :=
   deltaStr (moves.foldl (fun m mv => match mv with
     | .xfer .. => m
@@ -402,7 +410,7 @@ def recvLine (st : DState) (f : List String) (harness : Bool) : String × DState
           ++ " ev=" ++ (if ok then listOrDash out.ctx.events else "-") ++ " st=" ++ stateStr out.orb ++ " tag=" ++ tag
       else
         common ++ " req=" ++ (if ok then reqEvents out.ctx.reqs else "-") ++ " ev=" ++ (if ok then listOrDash out.ctx.events else "-")
-          ++ " st=" ++ stateStr out.orb ++ " tag=" ++ tag
+          ++ " mv=" ++ (if ok then movesStr out.ctx.moves else "-") ++ " st=" ++ stateStr out.orb ++ " tag=" ++ tag
     (line, { st with w := out.world, faults := if harness then [] else st.faults })
 
 def isOrbiterPacket (st : DState) (pkt : Packet) : Bool :=
@@ -461,6 +469,15 @@ def handle (st : DState) (line : String) : String × DState :=
        | .ok (o, evs, _) => ("res=ok ev=" ++ listOrDash evs ++ " st=" ++ stateStr o, { st with w := { st.w with orb := o } })
        | .err t => ("res=err ev=- st=" ++ stateStr st.w.orb ++ " tag=" ++ t, st)
        | .panic s => ("res=panic ev=- st=" ++ stateStr st.w.orb ++ " tag=" ++ s, st))
+  | "msgdry" :: rest =>
+    -- the message executed on a branch that is then discarded: the result is observed, the state is not kept
+    (match parseMsg rest with
+     | none => ("bad-op", st)
+     | some m =>
+       match msgStep st.cfg noFaults st.w.orb m with
+       | .ok _ => ("res=ok st=" ++ stateStr st.w.orb, st)
+       | .err t => ("res=err st=" ++ stateStr st.w.orb ++ " tag=" ++ t, st)
+       | .panic s => ("res=panic st=" ++ stateStr st.w.orb ++ " tag=" ++ s, st))
   | "acth" :: a :: d :: aid :: k :: rest =>
     (match parseInt a, unhxS d, parseInt aid, parseNat k with
      | some amt, some denom, some aid, some n =>
